@@ -12,7 +12,7 @@ import time
 import numpy as np
 
 import vf.repoenv  # noqa: F401
-from vf.common import HELD, INCONCLUSIVE, VIOLATED, Run, case_hash, main_wrapper, run_pool, seed
+from vf.common import wall_budget, HELD, INCONCLUSIVE, VIOLATED, Run, case_hash, main_wrapper, run_pool, seed
 
 PID = "C04"
 CELLS = ["interval", "triangle", "quadrilateral", "tetrahedron", "hexahedron"]
@@ -214,7 +214,7 @@ def main(tier, replay=None):
         import json
 
         cases = [json.load(open(replay))["replay"]["case"]]
-    results = run_pool("c04", cases, per_case_timeout=240, chunk=3, deadline=time.time() + (420 if tier == "quick" else 2400))
+    results = run_pool("c04", cases, per_case_timeout=240, chunk=3, deadline=time.time() + wall_budget(tier, 420, 2400))
     for r in results:
         run.add(r)
     run.require("compared_ok_nontrivial", 60 if not replay else 1)
